@@ -439,6 +439,9 @@ fn check_cause(w: &mut World, uid: Uid, ev: &Ev) {
         }
         Ev::Timeout(ev_dl) => {
             let now = Instant::now();
+            if matches!(w.srcs[uid].spec.kind, Kind::Comp { .. }) {
+                w.count("composite_watchdog_fired");
+            }
             w.timer_cb_deadlines.push((uid, *ev_dl));
             let s = &mut w.srcs[uid];
             match s.arm.as_mut() {
@@ -593,7 +596,7 @@ pub fn on_callback(uid: Uid, ev: Ev) -> CbRet {
         }
         check_cause(w, uid, &ev);
         let mut step = w.srcs[uid].spec.prog.get(k).cloned().unwrap_or_default();
-        if w.srcs[uid].is_timer() && step.tact == TAct::Drop {
+        if matches!(w.srcs[uid].spec.kind, Kind::Timer { .. }) && step.tact == TAct::Drop {
             step.ret = Ret::Continue;
         }
         if matches!(ev, Ev::Closed | Ev::Item(None)) {
